@@ -14,6 +14,16 @@ HARNESS = ("harness/cmd/vharness (Go, built against /repo's working tree with -t
 NOT_APPLICABLE = {}
 
 PROPS = {
+    "C15": {
+        "design_ref": "DESIGN.md section 6 (C15)",
+        "projection": "per tick: heartbeat (request id, heartbeat id) or recycle; echo of the peer's heartbeat",
+        "mismatch_is_input": True,
+        "timeout": {"quick": 1500, "thorough": 6000},
+        "level_text": "Coq theorems on the keepalive loop (Model/Keepalive.v: check, ping, handlePong, handlePing echo, the reset by a successful recovery) with time supplied by the environment: every tick while connected, not recovering and not timed out sends one heartbeat whose request id is fresh and equals the heartbeat id of its body; the peer's heartbeat request is echoed (TCP); a peer that stopped answering is recycled at the first tick later than lastPong+timeout, i.e. within interval+timeout; and for timeout >= interval a peer that answers every heartbeat before the next tick is never recycled, from any state with no awaited heartbeat or a recent pong - including after any recovery. Timing hypotheses are explicit premises (healthy schedule). Tie: the real loop at 100 ms / 250 ms over TCP and WebSocket against always/never/stop-after-n/late/after-recovery peers; measured tick and pong times are replayed by the model tick by tick; latency bounds measured (direct oracle).",
+        "level_note": "Trusted: kernel, extraction, harness, ka.tick hook. Real time is measured, not proved: scheduling slack of 300 ms in the detection bound; a tick that coincides with a recovery in progress is outside the replayed scenarios.",
+        "assumptions": ["time.Ticker ticks about every interval", "clock monotonic"],
+        "modelled": "client.keepalive (check, ping), handlePong, handlePing, counter/heartbeat reset on recovery",
+    },
     "C08": {
         "design_ref": "DESIGN.md section 6 (C08)",
         "projection": "dials, frames per connection with the presented session, back-offs, after-reconnect / give-up callbacks",
